@@ -431,8 +431,18 @@ class TElement:
             # cleanup process and cloning
             if start_pos is None:
                 assert is_valid_inner_node
-                self.start_pos = self.value[0].start_pos
-                self.end_pos = self.value[-1].end_pos
+                # child elements which matched nothing (have empty span) are
+                # located at the next token, do not let them extend the span
+                # of this element over skipped text
+                not_empty = [
+                    x for x in self.value
+                    if x.start_pos.coords != x.end_pos.coords]
+                if not_empty:
+                    self.start_pos = not_empty[0].start_pos
+                    self.end_pos = not_empty[-1].end_pos
+                else:
+                    self.start_pos = self.value[0].start_pos
+                    self.end_pos = self.value[0].start_pos
             else:
                 self.start_pos = start_pos
                 self.end_pos = end_pos
